@@ -329,6 +329,15 @@ let decode_cmd (f : string list) : cmd =
               opt_strs (a 2), has_flag (a 3) "hard")
   | "repair" -> CRepair
   | "logclear" -> CLogClear
+  | "edit" ->
+      CEdit ((if a 1 = "_" then None else Some (str_of_hex (a 1))), n_of_decimal (a 2),
+             ascii_str ("x" ^ a 2 ^ " edited"))
+  | "rebase" -> (
+      match a 1 with
+      | "patch" -> CRebase (TPatch (str_of_hex (a 2)))
+      | "base" -> CRebase (TBaseAncestor (nat_of_int (int_of_string (a 2))))
+      | "head" -> CRebase (THeadAncestor (nat_of_int (int_of_string (a 2))))
+      | _ -> raise Bad_request)
   | "inspect" -> CInspect
   | "gedit" -> GEdit (nat_of_int (int_of_string (a 1)), n_of_decimal (a 2))
   | "gcommit" -> GCommit (n_of_decimal (a 1), str_of_hex (a 2))
